@@ -79,7 +79,7 @@ func (c LedgerConfig) Render() (module string, files map[string][]byte, cfg stri
 	files = map[string][]byte{"LedgerRun.tla": []byte(m.String())}
 	var b strings.Builder
 	b.WriteString("SPECIFICATION Spec\nCONSTANTS\n")
-	fmt.Fprintf(&b, "  Addrs = %s\n  MatDelay = %d\n  AllowH = %d\n  RequireH = %d\n  EphH = %d\n  FoundH = %d\n  Reward = %d\n", strs(c.Addrs), c.P.MatDelay, c.P.AllowH, c.P.RequireH, c.P.EphH, c.P.FoundH, c.P.Reward)
+	fmt.Fprintf(&b, "  Addrs = %s\n  MatDelay = %d\n  AllowH = %d\n  RequireH = %d\n  EphH = %d\n  FoundH = %d\n  DevH = %d\n  DevLock = %d\n  Reward = %d\n", strs(c.Addrs), c.P.MatDelay, c.P.AllowH, c.P.RequireH, c.P.EphH, c.P.FoundH, devH(c.P), c.P.DevLock, c.P.Reward)
 	fmt.Fprintf(&b, "  MaxHeight = %d\n  MaxTxns = %d\n  MaxReverts = %d\n  GenSC <- R_GenSC\n  GenSF <- R_GenSF\n", c.MaxHeight, c.MaxTxns, c.MaxReverts)
 	fmt.Fprintf(&b, "  Templates = %s\n  Defects = %s\n  PayAmts = %s\n  Fees = %s\n  Pay1 = %s\n  Sizes = %s\n  FormRH <- R_FormRH\n  RevShifts = %s\n  SFSplits = %s\n  Focus = %s\n  StopAfterReject = %s\n  HistPost = %s\n  WinStarts = %s\n  WinLens = %s\n",
 		strs(c.Templates), strs(c.Defects), ints(c.PayAmts), ints(c.Fees), ints(c.Pay1), ints(c.Sizes), ints(c.RevShifts), ints(c.SFSplits), map[bool]string{true: "TRUE", false: "FALSE"}[c.Focus], map[bool]string{true: "TRUE", false: "FALSE"}[c.EmitAll], map[bool]string{true: "TRUE", false: "FALSE"}[!c.NoPost], ints(orDefault(c.WinStarts, []int{0, 1, 2})), ints(orDefault(c.WinLens, []int{1, 2})))
@@ -98,4 +98,12 @@ func (c LedgerConfig) Render() (module string, files map[string][]byte, cfg stri
 	}
 	b.WriteString("CHECK_DEADLOCK FALSE\n")
 	return module, files, b.String()
+}
+
+// devH is the model's developer-address fork height: far beyond every horizon when the configuration has none.
+func devH(p Params) uint64 {
+	if p.DevH == 0 {
+		return 1000
+	}
+	return p.DevH
 }
